@@ -95,3 +95,85 @@ func metaLayoutMD(c LayoutMDCase) vr.Meta {
 func TestLayoutHeadings(t *testing.T) {
 	vr.Prop(t, "layoutmd", vr.N(1500, 20000), genLayoutMD, metaLayoutMD, checkLayoutMD)
 }
+
+// Lists found by layout analysis: bulleted paragraphs whose left margin grows by 15 pt (the documented IndentThreshold) per level, deepening one
+// level at a time (up to four levels). layout.List.ToMarkdown must show every item, in order, at its depth.
+
+type LayoutListCase struct {
+	Depths []int `json:"depths"` // depth of each item, first 0, deepening by at most one
+}
+
+func init() { vr.Register("layoutlist", checkLayoutList) }
+
+func checkLayoutList(c LayoutListCase) error {
+	var paras []layout.Paragraph
+	y := 700.0
+	for i, d := range c.Depths {
+		x := 72 + 15*float64(d) // IndentThreshold: "the minimum indentation increase to consider nested", 15 pt
+		paras = append(paras, layout.Paragraph{Text: fmt.Sprintf("• item%dz here", i), BBox: model.BBox{X: x, Y: y, Width: 300 - x, Height: 14},
+			LeftMargin: x, AverageFontSize: 12})
+		y -= 20
+	}
+	res := layout.NewListDetector().DetectFromParagraphs(paras, 612, 792)
+	if res == nil || res.ListCount() != 1 {
+		n := 0
+		if res != nil {
+			n = res.ListCount()
+		}
+		return fmt.Errorf("%d lists detected in %d consecutive bulleted paragraphs (depths %v), want 1", n, len(c.Depths), c.Depths)
+	}
+	list := res.GetList(0)
+	all := list.GetAllItems()
+	if len(all) != len(c.Depths) {
+		return fmt.Errorf("GetAllItems: %d items, the list has %d (depths %v)", len(all), len(c.Depths), c.Depths)
+	}
+	for i, it := range all {
+		if want := fmt.Sprintf("item%dz here", i); mdparse.Norm(it.Text) != want || it.Level != c.Depths[i] {
+			return fmt.Errorf("GetAllItems: item %d is %q at level %d, want %q at level %d (depths %v)", i, it.Text, it.Level, want, c.Depths[i], c.Depths)
+		}
+	}
+	md := list.ToMarkdown()
+	var items []mdparse.Block
+	for _, b := range mdparse.Parse(md) {
+		if b.Kind == "item" {
+			items = append(items, b)
+		}
+	}
+	if len(items) != len(c.Depths) {
+		return fmt.Errorf("List.ToMarkdown: a GFM parser reads %d list items, the list has %d (depths %v):\n%s", len(items), len(c.Depths), c.Depths, md)
+	}
+	for i, b := range items {
+		if want := fmt.Sprintf("item%dz here", i); mdparse.Norm(b.Text) != want || b.Level != c.Depths[i] {
+			return fmt.Errorf("List.ToMarkdown: item %d reads %q at depth %d, want %q at depth %d:\n%s", i, b.Text, b.Level, want, c.Depths[i], md)
+		}
+	}
+	return nil
+}
+
+func genLayoutList(t *rapid.T) LayoutListCase {
+	n := rapid.IntRange(2, 9).Draw(t, "items")
+	c := LayoutListCase{Depths: []int{0}}
+	for i := 1; i < n; i++ {
+		prev := c.Depths[i-1]
+		hi := prev + 1
+		if hi > 3 {
+			hi = 3
+		}
+		c.Depths = append(c.Depths, rapid.IntRange(0, hi).Draw(t, "depth"))
+	}
+	return c
+}
+
+func metaLayoutList(c LayoutListCase) vr.Meta {
+	max := 0
+	for _, d := range c.Depths {
+		if d > max {
+			max = d
+		}
+	}
+	return vr.Meta{FP: fmt.Sprint(c.Depths), NonTrivial: max >= 2, Labels: []string{"layoutlist", fmt.Sprintf("layoutlist:depth:%d", max)}}
+}
+
+func TestLayoutLists(t *testing.T) {
+	vr.Prop(t, "layoutlist", vr.N(1500, 20000), genLayoutList, metaLayoutList, checkLayoutList)
+}
